@@ -318,6 +318,14 @@ pub mod verif_hook {
         AfterCache,
         /// the result is known; the key is popped from the recursion guard next
         BeforePop,
+        /// entry of `Lazy::load`; the "key" of the `Lazy*` points is the address of the once-cell
+        LazyEnter,
+        /// the initialiser of the once-cell starts (this thread owns the cell now)
+        LazyInit,
+        /// the initialiser is through; the cell stores its result next
+        LazyStore,
+        /// `Lazy::load` returns
+        LazyExit,
     }
     pub type Callback = dyn Fn(Point, PlainRef) + Send + Sync;
 
@@ -332,6 +340,13 @@ pub mod verif_hook {
         let callback = HOOK.read().unwrap().clone();
         if let Some(callback) = callback {
             callback(point, key);
+        }
+    }
+    /// calls the hook when it goes out of scope
+    pub(crate) struct AtEnd(pub(crate) Point, pub(crate) PlainRef);
+    impl Drop for AtEnd {
+        fn drop(&mut self) {
+            yield_point(self.0, self.1);
         }
     }
 }
